@@ -19,6 +19,42 @@ CLAIMS = {
         note=TRUST + "the statement is the rule table; byteorder decoding trusted.",
         technique="symbolic summary of match arms over typed THIR + MIR abstract interpretation (panic inventory)",
         design="5/C06"),
+    "C01": dict(
+        category="proof",
+        text="For every opcode byte the interpreter arm's effect summary (register writes, stores, branch condition and target, "
+             "error exits) is extracted from typed THIR as normalised bit-vector terms over dst/src/off/imm and must equal the ISA "
+             "reference term; parametric in the operands, hence valid for all operand values. Loop fetch/advance discipline, full-width "
+             "pc arithmetic and the initial register state are checked structurally. F01 (zero-extended immediates in six unsigned "
+             "64-bit jumps, pinned by a repository test) is a recorded known finding.",
+        note=TRUST + "isaref.py is the ISA oracle (written from the specification); call/exit arms are decided under C07/C08.",
+        technique="THIR symbolic summaries normalised to canonical bit-vector terms, compared with an ISA reference table",
+        design="5/C01"),
+    "C02": dict(
+        category="proof",
+        text="Every raw access in every memory arm is guarded on its path by inbounds(addr, n) for exactly its address and width; "
+             "refusal paths return Err with no store; the bounds-check function's Ok condition equals no-wrap and containment in "
+             "mbuff/mem/stack or a registered range (exists-quantified); raw primitives occur only in the interpreter.",
+        note=TRUST + "validity of slices and registered ranges is the caller's contract.",
+        technique="THIR symbolic summaries with path conditions; predicate extraction of the bounds check",
+        design="5/C02"),
+    "C17": dict(
+        category="proof",
+        text="Bit-lane provenance: every bit of Insn::to_array / to_vec / builder into_bytes is shown to be the layout table's "
+             "source bit, and every field decoded by get_insn the inverse lane at byte offset 8*idx; exact lanes make the round trip "
+             "hold for all 2^64 slot values.",
+        note=TRUST + "byteorder little-endian reads are modelled as byte lanes; register numbers 0-15; the builder's opcode algebra "
+             "per constructor is not yet compared with the assembler's opcode table.",
+        technique="bit-lane provenance over THIR symbolic terms",
+        design="5/C17"),
+    "C20": dict(
+        category="proof",
+        text="Configuration differ: the normalised typed THIR of every function body present in both the std and the no_std "
+             "expansion is identical (299 bodies incl. interpreter, verifier, assembler, disassembler, JIT generator); the 8 bodies "
+             "that differ each satisfy their own rule; items in one configuration only are the documented ones; no_std "
+             "dependencies disable default features.",
+        note=TRUST + "combine's easy_parse and parse are assumed to accept the same language.",
+        technique="structural diff of type-checked bodies across cfg expansions",
+        design="5/C20"),
     "C05": dict(
         category="proof",
         text="Assume-guarantee closure: every panic-capable site reachable from the interpreter entry (MIR asserts, unwrap/index/"
